@@ -580,7 +580,16 @@ impl<'a> Model<'a> {
         let mut base_no = 0;
         for f in td.fields.iter().filter(|f| f.base) {
             let Ty::Named(n) = &f.ty else { continue };
-            let Some(Bind::Item(bm, bi)) = self.bind(m, n) else { continue };
+            let (bm, bi) = match self.bind(m, n) {
+                Some(Bind::Item(bm, bi)) => (bm, bi),
+                Some(Bind::Ext(..)) => {
+                    // a base of extern type brings no functions, but it counts as a base: what follows it is
+                    // not the first base any more
+                    base_no += 1;
+                    continue;
+                }
+                _ => continue,
+            };
             if !matches!(self.prog.mods[bm].items[bi], Item::Type(_)) {
                 continue;
             }
